@@ -67,8 +67,8 @@ def base_wb(b, blanks=0):
 
 
 def to_wb(m):
-    def table(rows, pref):
-        cols = [c for c in pref if any(c in r for r in rows)]
+    def table(rows, pref, front=()):
+        cols = list(front) + [c for c in pref if any(c in r for r in rows)]
         for r in rows:
             for c in r:
                 if c not in cols:
@@ -77,10 +77,10 @@ def to_wb(m):
 
     sheets = []
     if "survey" not in m["drop"]:
-        h, r = table(m["survey"], SURVEY_COLS)
+        h, r = table(m["survey"], SURVEY_COLS, m.get("front", {}).get("survey", ()))
         sheets.append({"name": "survey", "header": h or ["type", "name", "label"], "rows": r})
     if "choices" not in m["drop"]:
-        h, r = table(m["choices"], CHOICE_COLS)
+        h, r = table(m["choices"], CHOICE_COLS, m.get("front", {}).get("choices", ()))
         sheets.append({"name": "choices", "header": h, "rows": r})
     if m["settings"]:
         ks = list(m["settings"])
@@ -318,6 +318,22 @@ def apply(mid: str, m: dict, i: int):
         for s in S:
             s.pop("type", None)
         return ["type"]
+    if mid.startswith("header_twice_"):
+        # one column under two spellings (an alias or another capitalisation), in either order
+        which, order = mid[len("header_twice_"):].rsplit("_", 2)[0], mid.rsplit("_", 2)[1]
+        sheet, canon, alias = {"case": ("survey", "label", "Label"), "choices": ("choices", "name", "value"), "logic": ("survey", "relevant", "relevance")}[which]
+        rows = S if sheet == "survey" else C
+        hit = False
+        for r in rows:
+            if r and (canon in r or which == "logic" and r.get("name") and not hit):
+                r.setdefault(canon, "1")
+                r[alias] = r[canon]
+                hit = True
+        if not hit:
+            return None
+        if order == "alias":
+            m.setdefault("front", {})[sheet] = [alias]
+        return [alias, canon]
     if mid == "omit_instanceid_with_key":
         m["settings"].update(omit_instanceID="yes", public_key="abc", submission_url="http://x")
         return []
